@@ -178,11 +178,15 @@ class RuleSet(object):
         setattr(self.mods[r["mod"]], body.__name__, body)
         deps = {"met": [self.present], "missing": [self.absent1],
                 "missing-group": [self.present, [self.absent1, self.absent2]],
-                "missing-both": [self.present, self.absent3, [self.absent1, self.absent2], [self.present, self.absent2]]}[r["dep"]]
+                "missing-both": [self.present, self.absent3, [self.absent1, self.absent2], [self.present, self.absent2]],
+                # the rule is told (dr.add_ignore) to keep quiet when a marker is present; the marker is present
+                "ignored": [self.present], "ignored-missing": [self.present, self.absent1]}[r["dep"]]
         # a content template: none, one that renders, one that jinja2 cannot compile
         content = [None, "rule {{rid}} says {{pad}}", "{% if %}broken", {"KEY_1": "by key {{rid}}"}][(i + r["key"]) % 4]
         plugins.rule(*deps, tags=["t%d" % i, "common"], links={"kcs": ["https://example.test/%d" % i]},
                      content=content)(body)
+        if r["dep"] in ("ignored", "ignored-missing"):
+            dr.add_ignore(body, self.present)
         if not r["enabled"]:
             dr.set_enabled(body, False)
         self.rules[i] = body
